@@ -357,10 +357,22 @@ impl<'a> Lifter<'a> {
     }
     fn wrap_hoists(&self, hs: Vec<(String, Val)>, r: Val) -> Val {
         let mut text = r.text;
+        let mut ty = r.ty.clone();
         for (name, val) in hs.into_iter().rev() {
+            if name == "@@capture" {
+                // L17c: the observed call argument is the result; whatever was computed inside is dropped
+                if self.ret_ty.starts_with("Result<") {
+                    text = format!("{{ let cap__ = {}; Ok::<{}, LErr>(cap__) }}", val.text, val.ty);
+                    ty = format!("Result<{}, LErr>", val.ty);
+                } else {
+                    text = format!("{{ let cap__ = {}; cap__ }}", val.text);
+                    ty = val.ty.clone();
+                }
+                continue;
+            }
             text = format!("(match {} {{ Err(e__) => Err(e__), Ok({name}) => {text} }})", val.text);
         }
-        v(text, &r.ty)
+        v(text, &ty)
     }
 
     fn expr(&mut self, e: &syn::Expr) -> R<Val> {
@@ -1352,6 +1364,19 @@ impl<'a> Lifter<'a> {
             if args.len() != ptys.len() {
                 return Err(format!("construct outside rule list (lift): call of `{key}` with {} args, declared {}", args.len(), ptys.len()));
             }
+            // L17c: `observe=@f.k` - the k-th argument handed to `f` is the observable (independent of local names)
+            if let Some(obs) = self.observe.clone() {
+                if let Some(rest) = obs.strip_prefix('@') {
+                    if let Some((fname, k)) = rest.split_once('.') {
+                        if fname == key {
+                            let k: usize = k.parse().map_err(|_| format!("bad observable `{obs}`"))?;
+                            if k < args.len() {
+                                self.hoist.last_mut().unwrap().push(("@@capture".to_string(), args[k].clone()));
+                            }
+                        }
+                    }
+                }
+            }
             // L9: a scalar function applied to arrays is applied element-wise
             let arr: Vec<usize> = (0..args.len()).filter(|&i| ptys[i] == "real" && args[i].ty == "RArr").collect();
             if !arr.is_empty() && rty == "real" {
@@ -1791,7 +1816,31 @@ pub fn lift_fn(ctx: &mut Ctx, blk: &Block) -> Result<(String, Value), String> {
                 Some((a, t)) => (a.trim(), Some(t.trim().to_string())),
                 None => (o.trim(), None),
             };
-            if !bound_names.iter().any(|b| b == o) {
+            let is_bound = if let Some(rest) = o.strip_prefix('@') {
+                // the function calls `f`
+                let fname = rest.split('.').next().unwrap_or("").to_string();
+                struct C(String, bool);
+                impl<'ast> syn::visit::Visit<'ast> for C {
+                    fn visit_expr_call(&mut self, c: &'ast syn::ExprCall) {
+                        if let syn::Expr::Path(p) = &*c.func {
+                            if p.path.segments.last().map(|s| s.ident == self.0).unwrap_or(false) {
+                                self.1 = true;
+                            }
+                        }
+                        syn::visit::visit_expr_call(self, c);
+                    }
+                }
+                let mut c = C(fname, false);
+                syn::visit::Visit::visit_block(&mut c, f.block);
+                c.1
+            } else {
+                bound_names.iter().any(|b| b == o)
+            };
+            let oname_part = match o.strip_prefix('@') {
+                Some(rest) => rest.replace('.', "_arg"),
+                None => o.to_string(),
+            };
+            if !is_bound {
                 // L17b: an observable the function no longer binds is an arbitrary value of its declared type,
                 // so that the contract about it fails or holds on its own merits
                 let Some(t) = decl_ty else {
@@ -1799,11 +1848,11 @@ pub fn lift_fn(ctx: &mut Ctx, blk: &Block) -> Result<(String, Value), String> {
                 };
                 let rty = if ret_ty.starts_with("Result<") { format!("Result<{t}, LErr>") } else { t };
                 let ps: Vec<String> = params.iter().map(|(n, t)| format!("{n}: {t}")).collect();
-                text.push_str(&format!("pub uninterp spec fn {name}__{o}({}) -> {rty};   // L17b: `{o}` is not bound by the function\n", ps.join(", ")));
+                text.push_str(&format!("pub uninterp spec fn {name}__{oname_part}({}) -> {rty};   // L17b: `{o}` is not bound by the function\n", ps.join(", ")));
                 unbound_notes.push(("L17b".into(), 0, format!("observable `{o}` is not bound by the function: arbitrary value")));
                 continue;
             }
-            outputs.push((format!("{name}__{o}"), Some(o.to_string())));
+            outputs.push((format!("{name}__{oname_part}"), Some(o.to_string())));
         }
     }
     let mut notes_all: Vec<(String, usize, String)> = Vec::new();
